@@ -50,6 +50,10 @@ def ty_coq(t):
         return "F"
     if t == "arr2":
         return "(arr2 F)"
+    if t == "arr2u16":
+        return "(arr2 Z)"
+    if t == "nd":
+        return "(nd F)"
     if t == "unit":
         return "unit"
     if isinstance(t, tuple) and t[0] == "list":
@@ -133,9 +137,12 @@ class Fn:
                 raise Unsupported("chained comparison")
             b1, c1, t1 = self.expr(e.left, env)
             b2, c2, t2 = self.expr(e.comparators[0], env)
+            op = type(e.ops[0])
+            if t1 == "F" and t2 == "F" and op in (ast.Lt, ast.Gt):
+                # float comparison: only the strict order is rendered (a > b is b < a)
+                return b1 + b2, ("(fltb %s %s)" % ((c1, c2) if op is ast.Lt else (c2, c1))), "bool"
             if t1 != "int" or t2 != "int":
                 raise Unsupported("comparison of %s and %s" % (t1, t2))
-            op = type(e.ops[0])
             tbl = {ast.Lt: "(%s <? %s)", ast.LtE: "(%s <=? %s)", ast.Gt: "(%s >? %s)", ast.GtE: "(%s >=? %s)",
                    ast.Eq: "(%s =? %s)", ast.NotEq: "(negb (%s =? %s))"}
             if op not in tbl:
@@ -171,6 +178,27 @@ class Fn:
         b2, c2, t2 = self.expr(e.right, env)
         b = b1 + b2
         op = type(e.op)
+        VEC = ("list", "F")
+        if op in (ast.Add, ast.Sub, ast.Mult, ast.Div) and (t1 in ("F", VEC, "nd") or t2 in ("F", VEC, "nd")):
+            # floating-point kernels: elementwise NumPy arithmetic over the abstract carrier F
+            f = {ast.Add: "fadd", ast.Sub: "fsub", ast.Mult: "fmul", ast.Div: "fdiv"}[op]
+            if t1 == "int":
+                c1, t1 = "(of_int %s)" % c1, "F"
+            if t2 == "int":
+                c2, t2 = "(of_int %s)" % c2, "F"
+            if t1 == "F" and t2 == "F":
+                return b, "(%s %s %s)" % (f, c1, c2), "F"
+            if t1 == VEC and t2 == "F":
+                return b, "(map (fun a_ => %s a_ %s) %s)" % (f, c2, c1), VEC
+            if t1 == "F" and t2 == VEC:
+                return b, "(map (fun a_ => %s %s a_) %s)" % (f, c1, c2), VEC
+            if t1 == VEC and t2 == VEC:
+                v = self.fresh()
+                return b + [(v, "np_bin_vv %s %s %s" % (f, c1, c2))], v, VEC
+            if t1 == VEC and t2 == "nd":
+                v = self.fresh()
+                return b + [(v, "np_bin_vnd %s %s %s" % (f, c1, c2))], v, VEC
+            raise Unsupported("float arithmetic on %s, %s" % (t1, t2))
         if op in (ast.Add, ast.Sub, ast.Mult):
             if isinstance(t1, tuple) and t1[0] == "list":
                 if op is ast.Add and isinstance(t2, tuple) and t2[0] == "list":
@@ -231,6 +259,22 @@ class Fn:
             raise Unsupported("shape of %s" % (t,))
         b, c, t = self.expr(e.value, env)
         sl = e.slice
+        if t in ("arr2", "arr2u16") and isinstance(sl, ast.Tuple) and len(sl.elts) == 2 \
+                and not isinstance(sl.elts[0], ast.Slice) and not isinstance(sl.elts[1], ast.Slice):
+            # a[i, j]
+            bi, ci, ti = self.expr(sl.elts[0], env)
+            bj, cj, tj = self.expr(sl.elts[1], env)
+            if ti != "int" or tj != "int":
+                raise Unsupported("element index types")
+            v = self.fresh()
+            return b + bi + bj + [(v, "np_get2 %s %s %s" % (c, ci, cj))], v, ("F" if t == "arr2" else "int")
+        if t == "arr2" and not isinstance(sl, (ast.Tuple, ast.Slice)):
+            # a[i]: row i of a 2-D array
+            bi, ci, ti = self.expr(sl, env)
+            if ti != "int":
+                raise Unsupported("row index type")
+            v = self.fresh()
+            return b + bi + [(v, "np_row %s %s" % (c, ci))], v, ("list", "F")
         if t == "arr2":
             if isinstance(sl, ast.Tuple) and len(sl.elts) == 2 and isinstance(sl.elts[1], ast.Slice) \
                     and sl.elts[1].lower is None and sl.elts[1].upper is None and sl.elts[1].step is None:
@@ -290,6 +334,19 @@ class Fn:
             b, c, t = self.expr(e.args[0].args[0], env)
             if t == ("list", "int"):
                 return b, "(py_accumulate %s)" % c, ("list", "int")
+        if fn == "np.zeros" and len(e.args) == 1 and isinstance(e.args[0], ast.Attribute) and e.args[0].attr == "shape":
+            b, c, t = self.expr(e.args[0].value, env)
+            kw = {k.arg: ast.unparse(k.value) for k in e.keywords}
+            if t == "arr2" and kw in ({}, {"dtype": "np.uint16"}):
+                v = self.fresh()
+                if kw:
+                    return b + [(v, "np_zeros2 0 (a_rows %s) (a_cols %s)" % (c, c))], v, "arr2u16"
+                return b + [(v, "np_zeros2 f0 (a_rows %s) (a_cols %s)" % (c, c))], v, "arr2"
+        if fn == "np.argmin" and len(e.args) == 1 and not e.keywords:
+            b, c, t = self.expr(e.args[0], env)
+            if t == ("list", "F"):
+                v = self.fresh()
+                return b + [(v, "np_argmin fltb %s" % c)], v, "int"
         if fn in ("np.ones", "np.zeros"):
             shape = None
             if len(e.args) == 1 and not e.keywords:
@@ -334,6 +391,9 @@ class Fn:
                         add(t.id)
                     elif isinstance(t, ast.Subscript) and isinstance(t.value, ast.Name):
                         add(t.value.id)
+                    elif isinstance(t, ast.Tuple) and all(isinstance(x, ast.Name) for x in t.elts):
+                        for x in t.elts:
+                            add(x.id)
                     else:
                         raise Unsupported("assignment target %s" % ast.unparse(t))
             elif isinstance(s, ast.Expr) and isinstance(s.value, ast.Call) and isinstance(s.value.func, ast.Attribute) \
@@ -401,9 +461,37 @@ class Fn:
                 env2 = dict(env)
                 env2[tgt.id] = t
                 return self.wrap(b, "let %s := %s in\n  %s" % (cname(tgt.id), c, nxt(env2)))
+            if isinstance(tgt, ast.Tuple) and len(tgt.elts) == 2 and all(isinstance(x, ast.Name) for x in tgt.elts) \
+                    and isinstance(s.value, ast.Attribute) and s.value.attr == "shape":
+                # (r, c) = a.shape
+                b, c, t = self.expr(s.value.value, env)
+                if t not in ("arr2", "arr2u16"):
+                    raise Unsupported("shape of %s" % (t,))
+                env2 = dict(env)
+                env2[tgt.elts[0].id] = "int"
+                env2[tgt.elts[1].id] = "int"
+                return self.wrap(b, "let %s := (a_rows %s) in\n  let %s := (a_cols %s) in\n  %s" % (
+                    cname(tgt.elts[0].id), c, cname(tgt.elts[1].id), c, nxt(env2)))
             if isinstance(tgt, ast.Subscript) and isinstance(tgt.value, ast.Name) and tgt.value.id in env:
                 a = tgt.value.id
                 ta = env[a]
+                if ta in ("arr2", "arr2u16") and isinstance(tgt.slice, ast.Tuple) and len(tgt.slice.elts) == 2 \
+                        and not any(isinstance(x, ast.Slice) for x in tgt.slice.elts):
+                    # a[i, j] = v   (uint16 arrays wrap the stored integer modulo 2^16)
+                    bi, ci, ti = self.expr(tgt.slice.elts[0], env)
+                    bj, cj, tj = self.expr(tgt.slice.elts[1], env)
+                    bv, cv, tv = self.expr(s.value, env)
+                    if (ti, tj) != ("int", "int") or tv != ("F" if ta == "arr2" else "int"):
+                        raise Unsupported("element store types %s" % ((ti, tj, tv),))
+                    val = cv if ta == "arr2" else "(wrap_u16 %s)" % cv
+                    return self.wrap(bi + bj + bv, "%s <- np_set2 %s %s %s %s ;;\n  %s" % (cname(a), cname(a), ci, cj, val, nxt(env)))
+                if ta == ("list", "int") and not isinstance(tgt.slice, (ast.Slice, ast.Tuple)):
+                    # l[i] = v on a Python list of ints
+                    bi, ci, ti = self.expr(tgt.slice, env)
+                    bv, cv, tv = self.expr(s.value, env)
+                    if ti != "int" or tv != "int":
+                        raise Unsupported("list store types %s" % ((ti, tv),))
+                    return self.wrap(bi + bv, "%s <- py_set_index %s %s %s ;;\n  %s" % (cname(a), cname(a), ci, cv, nxt(env)))
                 if ta == ("list", "F"):
                     bi, ci, ti = self.expr(tgt.slice, env)
                     if ti != ("list", "int"):
@@ -479,6 +567,17 @@ class Fn:
                 if t != "int":
                     raise Unsupported("range of %s" % (t,))
                 it, el = "(zrange %s)" % c, "int"
+            elif isinstance(s.iter, ast.Call) and ast.unparse(s.iter.func) == "range" and len(s.iter.args) in (2, 3) and not s.iter.keywords:
+                parts = [self.expr(x, env) for x in s.iter.args]
+                if any(p[2] != "int" for p in parts):
+                    raise Unsupported("range arguments")
+                b = sum((p[0] for p in parts), [])
+                if len(parts) == 3:
+                    if ast.unparse(s.iter.args[2]) != "-1":
+                        raise Unsupported("range step other than -1")
+                    it, el = "(zrange_down %s %s)" % (parts[0][1], parts[1][1]), "int"
+                else:
+                    it, el = "(zrange2 %s %s)" % (parts[0][1], parts[1][1]), "int"
             else:
                 b, it, t = self.expr(s.iter, env)
                 if not (isinstance(t, tuple) and t[0] == "list"):
@@ -529,7 +628,7 @@ class Fn:
         if a.vararg or a.kwarg or a.kwonlyargs or a.posonlyargs or a.defaults or a.kw_defaults:
             raise Unsupported("argument form")
         deco = [ast.unparse(d) for d in f.decorator_list]
-        if any(d != "functools.cache" for d in deco):
+        if any(d != "functools.cache" and not d.startswith("numba_guard.njit(") for d in deco):
             raise Unsupported("decorator %s" % deco)
         env = {}
         params = []
@@ -559,7 +658,13 @@ TARGETS = {
                           ("stack_training_data_multiple_series", "all_series"): ("list", "arr2"),
                           ("stack_training_data_multiple_series", "return"): "arr2",
                           ("label_switching_cost_template", "return"): ("list", "F")}),
+    # floating-point kernels: NumPy element arithmetic over an abstract carrier (header KHEADER)
+    "cluster_label_assignment": ("cluster_label_assignment.py", ["assign_point_cluster_labels"],
+                                 {("assign_point_cluster_labels", "label_assignment_cost"): "arr2",
+                                  ("assign_point_cluster_labels", "label_switching_cost"): "nd",
+                                  ("assign_point_cluster_labels", "return"): ("tuple", [("list", "int"), "F"])}),
 }
+KERNEL_MODULES = {"cluster_label_assignment"}
 
 HEADER = """(* GENERATED by vcheck/py2coq.py from %(src)s - do not edit.
    Regenerated from /repo's working tree on every run; the equivalence theorems in
@@ -578,13 +683,33 @@ Section Gen.
 """
 
 
+KHEADER = """(* GENERATED by vcheck/py2coq.py from %(src)s - do not edit.
+   Regenerated from /repo's working tree on every run; the equivalence theorems in
+   Proofs/GenEquiv*.v are re-checked against this text.  Semantic table: Gen/PyRt.v.
+   Floating-point code: the carrier F and its operations are abstract (instantiated at R and at binary64). *)
+From Coq Require Import String.
+From Coq Require Import ZArith QArith List Bool.
+From Ticc Require Import Gen.PyRt.
+Import ListNotations.
+Local Open Scope Z_scope.
+
+Section Gen.
+  Variable F : Type.
+  Variables f0 f1 : F.                          (* 0.0, 1.0 *)
+  Variables fadd fsub fmul fdiv : F -> F -> F.  (* + - * / on float64 *)
+  Variable fltb : F -> F -> bool.               (* < on float64 *)
+  Variable of_int : Z -> F.                     (* int -> float64 conversion *)
+
+"""
+
+
 def translate_module(mod, src_root):
     rel, names, overrides = TARGETS[mod]
     path = os.path.join(src_root, rel)
     tree = ast.parse(open(path).read())
     funcs = {n.name: n for n in tree.body if isinstance(n, ast.FunctionDef)}
     sigs = {}
-    out = [HEADER % {"src": "src/fast_ticc/" + rel}]
+    out = [(KHEADER if mod in KERNEL_MODULES else HEADER) % {"src": "src/fast_ticc/" + rel}]
     report = {}
     for name in names:
         if name not in funcs:
